@@ -1,8 +1,9 @@
 import VlsModel.Drv.Common
-/- Line-protocol models serving property C20 (none yet). -/
+import VlsModel.Drv.Locks
+/- Line-protocol models serving property C20. -/
 namespace VlsModel.Drv.C20
 open VlsModel.Drv
 
-def models : List (String × Model) := []
+def models : List (String × Model) := [ ("locks", Locks.model) ]
 
 end VlsModel.Drv.C20
